@@ -568,54 +568,50 @@ func describe(obs, sent []byte, lit int) string {
 		for pos+m < len(obs) && exp+m < len(sent) && obs[pos+m] == sent[exp+m] {
 			m++
 		}
-		if m > 0 && (m >= 16 || pos+m == len(obs) || lit == len(sent)) {
+		q := pos + m
+		if q == len(obs) {
 			emit(exp, exp+m)
-			pos += m
-			exp += m
-			continue
+			break
 		}
-		// no match or a short one (possibly a chance match in a symbolic payload): look for a longer one elsewhere
-		if m > 0 {
-			probe := obs[pos:]
-			if len(probe) > 16 {
-				probe = probe[:16]
-			}
-			if i := bytes.Index(sent, probe); i >= 0 && i != exp {
-				exp = i
-				continue
-			}
-			emit(exp, exp+m)
-			pos += m
-			exp += m
-			continue
-		}
-		probe := obs[pos:]
+		// the observed bytes leave the sent stream at q: look for the place where they continue
+		probe := obs[q:]
 		if len(probe) > 16 {
 			probe = probe[:16]
 		}
 		idx := -1
-		if len(probe) >= 4 || lit == len(sent) {
-			if exp < len(sent) {
-				if i := bytes.Index(sent[exp:], probe); i >= 0 {
-					idx = exp + i
-				}
-			}
-			if idx < 0 {
-				idx = bytes.Index(sent, probe)
+		if exp+m <= len(sent) {
+			if i := bytes.Index(sent[exp+m:], probe); i >= 0 {
+				idx = exp + m + i
 			}
 		}
-		if idx >= 0 && idx != exp {
-			exp = idx
+		if idx < 0 {
+			idx = bytes.Index(sent, probe)
+		}
+		if idx < 0 {
+			if m > 0 {
+				emit(exp, exp+m)
+			}
+			exp += m
+			parts = append(parts, fmt.Sprintf("[%s; 99999]", vh.N(int(obs[q]))))
+			pos = q + 1
+			garbage++
+			if garbage > 24 {
+				parts = append(parts, fmt.Sprintf("[88888; %s]", vh.N(len(obs)-pos)))
+				break
+			}
 			continue
 		}
-		// unexplained byte
-		parts = append(parts, fmt.Sprintf("[%s; 99999]", vh.N(int(obs[pos]))))
-		pos++
-		garbage++
-		if garbage > 24 {
-			parts = append(parts, fmt.Sprintf("[88888; %s]", vh.N(len(obs)-pos)))
-			break
+		// bytes just before q that fit both alignments (chance matches inside a symbolic
+		// payload) belong to the later one: the observed bytes physically come from there
+		b := 0
+		for b < m && exp+m-b-1 >= lit && idx-b-1 >= 0 && obs[q-b-1] == sent[idx-b-1] {
+			b++
 		}
+		if m-b > 0 {
+			emit(exp, exp+m-b)
+		}
+		pos = q - b
+		exp = idx - b
 	}
 	if len(parts) == 0 {
 		return "[]"
@@ -627,6 +623,19 @@ func describe(obs, sent []byte, lit int) string {
 func randBytes(r *rand.Rand, n int) []byte {
 	b := make([]byte, n)
 	r.Read(b)
+	return b
+}
+
+// payloads that are shipped symbolically use bytes >= 128 only, so that they can never
+// be mistaken for the ASCII text around them (PROXY line, websocket head) when the
+// observed bytes are mapped back to positions
+func payload(r *rand.Rand, n int) []byte {
+	b := randBytes(r, n)
+	if n > 1500 {
+		for i := range b {
+			b[i] |= 0x80
+		}
+	}
 	return b
 }
 
@@ -749,7 +758,7 @@ func (g *gen) base(kind int, big bool) *script {
 	r := g.r
 	s := &script{Kind: kind, PP: r.Intn(2) == 0, Local: randAddr(r), Remote: randAddr(r)}
 	n := g.payloadLen(big)
-	s.Stream = randBytes(r, n)
+	s.Stream = payload(r, n)
 	s.Lit = n
 	if n > 1500 {
 		s.Lit = 0
@@ -759,7 +768,7 @@ func (g *gen) base(kind int, big bool) *script {
 		s.Segs = segmentation(r, n, []int{0, 2, 3}[r.Intn(3)])
 	}
 	m := g.payloadLen(big && r.Intn(2) == 0)
-	s.Reply = randBytes(r, m)
+	s.Reply = payload(r, m)
 	s.RLit = m
 	if m > 1500 {
 		s.RLit = 0
@@ -923,7 +932,7 @@ func main() {
 	// 1. tcp / tcp-dynamic: every closing discipline x PROXY on/off x payload sizes
 	for _, kind := range []int{kTCP, kDyn} {
 		for e := 0; e < 7; e++ {
-			reps := run.Scale(5, 60)
+			reps := run.Scale(5, 30)
 			for i := 0; i < reps; i++ {
 				s := g.base(kind, i%5 == 4)
 				if kind == kDyn && i%2 == 0 {
@@ -938,16 +947,16 @@ func main() {
 	for i := 0; i < run.Scale(6, 40); i++ {
 		s := g.base(kTCP, true)
 		n := []int{32767, 32768, 32769, 65535, 65536, 2 * 32768}[i%6]
-		s.Stream, s.Lit = randBytes(r, n), 0
+		s.Stream, s.Lit = payload(r, n), 0
 		s.Segs = [][]int{{n}, segmentation(r, n, 2), segmentation(r, n, 0)}[r.Intn(3)]
-		s.Reply, s.RLit = randBytes(r, n-1+r.Intn(3)), 0
+		s.Reply, s.RLit = payload(r, n-1+r.Intn(3)), 0
 		name := g.ending(s, []int{0, 1, 3}[i%3])
 		add(s, "tcp-copybuf-boundary-"+name)
 	}
 
 	// 2. tcp+sni
 	hosts := []string{"foo.example", "a.b.example.com", "svc.internal", "x.io"}
-	for i := 0; i < run.Scale(70, 700); i++ {
+	for i := 0; i < run.Scale(70, 400); i++ {
 		big := i%6 == 5
 		s := g.base(kSNI, big)
 		var hello []byte
@@ -1007,7 +1016,7 @@ func main() {
 	}
 
 	// 3. websocket relay
-	for i := 0; i < run.Scale(60, 500); i++ {
+	for i := 0; i < run.Scale(60, 300); i++ {
 		s := g.base(kWS, i%7 == 6)
 		s.PP = false
 		payload := s.Reply
